@@ -66,6 +66,19 @@ func runConcCase(c Case, st *Stats, prop string) error {
 			}
 		}
 	}
+	if p.PreMerge {
+		for di, db := range dbs {
+			for i := 0; i < 2; i++ {
+				val := make([]byte, c.Cfg.Seg*6/10)
+				if err := db.Update(func(tx *nutsdb.Tx) error { return tx.Put("pre", []byte(fmt.Sprintf("p%d", i)), val, 0) }); err != nil {
+					return fmt.Errorf("population before the merge failed: %v", err)
+				}
+			}
+			if err := db.Merge(); err != nil {
+				return fmt.Errorf("db%d: Merge of two segments before the concurrent phase failed: %v", di, err)
+			}
+		}
+	}
 	newRaceReports() // drain reports of earlier cases
 	if p.NoList {
 		st.Exclude("c15-merge-list-duplication")
@@ -75,7 +88,7 @@ func runConcCase(c Case, st *Stats, prop string) error {
 		if strings.HasPrefix(res.Deadlock, "TIMEOUT-NOT-A-LOCK-WAIT") {
 			panic("INCONCLUSIVE: concurrent workload timed out without a lock wait\n" + res.Deadlock[:minInt(len(res.Deadlock), 4000)])
 		}
-		return fmt.Errorf("deadlock: the workload did not finish within 90 s, goroutines are parked on the database lock:\n%s", res.Deadlock[:minInt(len(res.Deadlock), 3000)])
+		return fatalViolation{fmt.Sprintf("deadlock: the workload did not finish within 60 s, goroutines are parked on the database lock:\n%s", res.Deadlock[:minInt(len(res.Deadlock), 3000)])}
 	}
 	if res.Panic != "" {
 		return fmt.Errorf("a transaction panicked: %s", res.Panic)
@@ -229,6 +242,9 @@ func runConcCase(c Case, st *Stats, prop string) error {
 	}
 	if p.Slow > 0 {
 		classes = append(classes, "slow-copy-case")
+	}
+	if p.PreMerge {
+		classes = append(classes, "merged-before-the-concurrent-phase")
 	}
 	st.Class("failed-write-transactions", failed)
 	if failed > 0 {
